@@ -19,3 +19,28 @@ package gaussian
 //@   loop 0 invariant -1 <= rangeindex && rangeindex < len(weights)
 //@   ensures [runnable] result.1 == nil ==> result.0 != nil && result.0.Rate != nil && result.0.IterationDuration > 0
 //@   ensures [rejected] result.1 != nil ==> result.0 == nil
+//@
+//@ // ---- C11 (mechanism clauses; the volume integral itself is outside the technique, see DESIGN §10.2):
+//@ // every tick evaluates the density at the offset inside the current repeat window, scales it by the weight of
+//@ // that window (index = number of whole windows since the start of the weight cycle), adds the carried remainder,
+//@ // requests the integer part and carries the fractional part to the next tick.
+//@ ghost var G11rwr real
+//@ ghost var G11acc int
+//@ ghost var G11steps int
+//@ pred wfCalc11(c *Calculator) = c != nil && c.dist != nil && c.repeatWindow > 0 && c.repeatWindow <= 4503599627370496 &&
+//@     c.repeatWindow * len(c.weights) <= 4503599627370496 && c.averageWeight != 0.0
+//@
+//@ func (*Calculator).For
+//@   props C11
+//@   fp-inexact
+//@   requires wfCalc11(c) && now >= timeZero()
+//@   ghost at entry : G11acc = 0 ; G11steps = 0
+//@   assert before call (*Distribution).PDF : [offset-inside-the-window] arg1 == real((now - timeZero()) % c.repeatWindow)
+//@   ghost after call (Time).Add : G11acc = G11acc + c.repeatWindow ; G11steps = G11steps + 1
+//@   loop 0 invariant i == G11steps && 0 <= i && G11acc == i * c.repeatWindow && startOfWeight == (now - (now - timeZero()) % (c.repeatWindow * len(c.weights))) + G11acc
+//@   ghost before call math.Floor : G11rwr = arg0
+//@   modifies c.remainder, G11rwr, G11acc, G11steps
+//@   ensures [integer-part-requested] real(result) <= G11rwr && G11rwr < real(result) + 1.0
+//@   ensures [fraction-carried] abs((real(result) + c.remainder) - G11rwr) <= 0.000000001 * (1.0 + abs(G11rwr)) && c.remainder >= 0.0 && c.remainder <= 1.000001
+//@   ensures [never-negative] (c.dist.standardDeviation >= 0.000000001 && c.multiplier >= 0.0 && c.averageWeight > 0.0 && old(c.remainder) >= 0.0 && (forall j int :: 0 <= j && j < len(c.weights) ==> c.weights[j] >= 0.0)) ==> result >= 0
+//@   ensures [window-index] len(c.weights) > 0 ==> (0 <= G11steps && G11steps < len(c.weights) && G11steps * c.repeatWindow == ((now - timeZero()) % (c.repeatWindow * len(c.weights))) - ((now - timeZero()) % c.repeatWindow))
